@@ -1,24 +1,25 @@
 /-
   C05 (part) — member order does not matter to the Hayson decoder visitor.
 
-  `visit_map` (src/haystack/encoding/json/decode.rs) reads the members in document order: it decodes
-  the member's value, treats a `_kind` member as the type tag (returning AT ONCE for
-  `marker`/`remove`/`na`), inserts every other member into a `BTreeMap` (last wins) and dispatches on
-  the remembered kind after the last member.  So the outcome is independent of the member order exactly
-  when (1) the keys are pairwise distinct (otherwise "last wins" depends on the order) and (2) an early
-  return cannot hide a failure: either every member value decodes, or no `_kind` member holds one of the
-  three early-return kinds.  `{"_kind":"marker","x":<undecodable>}` violates (2) and is order dependent
-  (witness below); it is not a Hayson document.
+  `visit_map` (src/haystack/encoding/json/decode.rs) reads the members in the order the `MapAccess` delivers
+  them (document order for `from_str`/`from_slice`, key order for `from_value`): it decodes the member's
+  value, treats a `_kind` member as the type tag (returning AT ONCE for `marker`/`remove`/`na` — and
+  serde_json then refuses the map unless that member was the last one, `Hs.Hayson.earlyReturn`), inserts
+  every other member into a `BTreeMap` (last wins) and dispatches on the remembered kind after the last
+  member.  So the outcome is independent of the member order exactly when (1) the keys are pairwise distinct
+  (otherwise "last wins" depends on the order) and (2) no `_kind` member holds one of the three early-return
+  kinds — unless the object has no other member.  `{"_kind":"marker","x":1}` (an error) and
+  `{"x":1,"_kind":"marker"}` (Marker) violate (2) (witness below, reproduced on the real code with
+  `from_str`); neither is a Hayson document.
 
-  All statements are about the tree-level model `Hs.Hayson.fromJson`/`visitMap` (members in document
+  All statements are about the tree-level model `Hs.Hayson.fromJson`/`visitMap` (members in visiting
   order); permutations are `List.Perm` on `Members.toList`.
 
   Part 1: one object (`visitMap_perm`, `fromJson_obj_perm`), hypotheses exact (witnesses).
   Part 2: reordering at every depth (`JPerm`), for documents all of whose objects satisfy the hypotheses
-  (`OrdOK`, `fromJson_jperm`); the encoder's document of a well-formed value does (`ordOK_val`), hence
-  `C05_order`: any member order, at any depth, of the encoder's document decodes to the image of the value.
-  What C05 (b) asks beyond this — optional members present/absent, other number spellings, `"_kind":"dict"` —
-  is not covered here.
+  or have at most one member (`OrdOK`, `fromJson_jperm`); the encoder's document of a well-formed value does
+  (`ordOK_val`), hence `C05_order`: any member order, at any depth, of the encoder's document decodes to the
+  image of the value.  Optional members present/absent, number spellings, `"_kind":"dict"`: Thm/C05.lean.
 -/
 import Hs.Lemmas.HaysonTotal
 import Hs.Thm.C02
@@ -43,25 +44,17 @@ def NoEarlyKind (ms : Members) : Prop :=
 theorem view_keys (ms : Members) : (view ms).map (·.1) = ms.toList.map (·.1) := by
   rw [view_eq_map, List.map_map]; rfl
 
-theorem orderHyp_view (ms : Members) (hh : AllDecode ms ∨ NoEarlyKind ms) : OrderHyp (view ms) := by
+theorem orderHyp_view (ms : Members) (h : NoEarlyKind ms) : OrderHyp (view ms) := by
   rw [view_eq_map]
-  rcases hh with h | h
-  · left
-    intro p hp
-    obtain ⟨q, hq, e⟩ := List.mem_map.mp hp
-    subst e
-    exact h q hq
-  · right
-    intro p hp
-    obtain ⟨q, hq, e⟩ := List.mem_map.mp hp
-    subst e
-    exact ⟨fromJson_okOrErr q.2, h q hq⟩
+  intro p hp
+  obtain ⟨q, hq, e⟩ := List.mem_map.mp hp
+  subst e
+  exact ⟨fromJson_okOrErr q.2, h q hq⟩
 
-/-- The full statement: under distinct keys and (all values decode ∨ no early-return kind), the visitor
-— started with any remembered kind and any collected entries — gives the same outcome on every
-reordering of the members. -/
+/-- The full statement: under distinct keys and no early-return kind, the visitor — started with any
+remembered kind and any collected entries — gives the same outcome on every reordering of the members. -/
 def visitMap_perm_full : Prop :=
-  ∀ ms ms' : Members, MPerm ms ms' → KeysDistinct ms → (AllDecode ms ∨ NoEarlyKind ms) →
+  ∀ ms ms' : Members, MPerm ms ms' → KeysDistinct ms → NoEarlyKind ms →
     ∀ kind d, visitMap ms kind d = visitMap ms' kind d
 
 theorem visitMap_perm : visitMap_perm_full := by
@@ -74,18 +67,15 @@ theorem visitMap_perm : visitMap_perm_full := by
 
 /-- … in particular for a whole JSON object -/
 theorem fromJson_obj_perm (ms ms' : Members) (hp : MPerm ms ms') (hd : KeysDistinct ms)
-    (hh : AllDecode ms ∨ NoEarlyKind ms) : fromJson (.obj ms) = fromJson (.obj ms') := by
+    (hh : NoEarlyKind ms) : fromJson (.obj ms) = fromJson (.obj ms') := by
   rw [fromJson, fromJson]
   exact visitMap_perm ms ms' hp hd hh [] []
 
 /-- the hypotheses travel along a reordering (so the statement is symmetric) -/
 theorem hyps_of_perm (ms ms' : Members) (hp : MPerm ms ms') (hd : KeysDistinct ms)
-    (hh : AllDecode ms ∨ NoEarlyKind ms) : KeysDistinct ms' ∧ (AllDecode ms' ∨ NoEarlyKind ms') := by
+    (hh : NoEarlyKind ms) : KeysDistinct ms' ∧ NoEarlyKind ms' := by
   have hk : (ms.toList.map (·.1)).Perm (ms'.toList.map (·.1)) := hp.map _
-  refine ⟨hk.nodup_iff.mp hd, ?_⟩
-  rcases hh with h | h
-  · exact Or.inl (fun p hp' => h p (hp.mem_iff.mpr hp'))
-  · exact Or.inr (fun p hp' => h p (hp.mem_iff.mpr hp'))
+  exact ⟨hk.nodup_iff.mp hd, fun p hp' => hh p (hp.mem_iff.mpr hp')⟩
 
 /-! ### the hypotheses are satisfiable and each is needed -/
 
@@ -109,13 +99,14 @@ example : MPerm m_ref m_ref' ∧ KeysDistinct m_ref ∧ AllDecode m_ref ∧ NoEa
     simp [m_ref, Members.toList] at hp
     rcases hp with e | e | e <;> subst e <;> simp [fromJson, isEarly, s] at hk ⊢
 
-/-- a value that does not decode: an object whose `_kind` is not a string -/
-def bad : Json := .obj (.cons (s "_kind") .null .nil)
-
-/-- (2) is needed: `{"_kind":"marker","x":bad}` is Marker, `{"x":bad,"_kind":"marker"}` is an error -/
+/-- (2) is needed, even when every member value decodes: `{"_kind":"marker","x":1}` is an error (the
+visitor returns at `_kind`, serde_json refuses the unconsumed map), `{"x":1,"_kind":"marker"}` is Marker.
+Reproduced on the real code (`from_str`: "trailing comma at line 1 column 18" / `Ok(Marker)`). -/
+def one : Json := .int 1 { bits := 0x3FF0000000000000, txt := ['1'] }
 example :
-    (fromJson (.obj (.cons (s "_kind") (.str (s "marker")) (.cons (s "x") bad .nil)))).tag = "ok" ∧
-    (fromJson (.obj (.cons (s "x") bad (.cons (s "_kind") (.str (s "marker")) .nil)))).tag = "err" := by
+    (fromJson (.obj (.cons (s "_kind") (.str (s "marker")) (.cons (s "x") one .nil)))).tag = "err" ∧
+    okIs (fromJson (.obj (.cons (s "x") one (.cons (s "_kind") (.str (s "marker")) .nil))))
+      (fun v => match v with | .marker => true | _ => false) = true := by
   decide +kernel
 
 /-- (1) is needed: `{"a":true,"a":false}` and `{"a":false,"a":true}` decode to different dicts -/
@@ -149,10 +140,11 @@ def MsPerm : Members → Members → Prop
 end
 
 mutual
-/-- every object in the document, at any depth, satisfies the hypotheses of `visitMap_perm` -/
+/-- every object in the document, at any depth, satisfies the hypotheses of `visitMap_perm` or has at most
+one member (the `{"_kind":"marker"}` objects) -/
 def OrdOK : Json → Prop
   | .arr xs => OrdOKs xs
-  | .obj ms => KeysDistinct ms ∧ (AllDecode ms ∨ NoEarlyKind ms) ∧ OrdOKm ms
+  | .obj ms => KeysDistinct ms ∧ (NoEarlyKind ms ∨ ms.toList.length ≤ 1) ∧ OrdOKm ms
   | _ => True
 def OrdOKs : Jsons → Prop
   | .nil => True
@@ -187,7 +179,11 @@ theorem fromJson_jperm : (j : Json) → ∀ j', OrdOK j → JPerm j j' → fromJ
       exact hperm.map _
     have hn : ((view ms).map (·.1)).Nodup := by rw [view_keys]; exact hd
     rw [fromJson_obj, fromJson_obj, hv]
-    exact runR_perm hp' (hv ▸ hn) (hv ▸ orderHyp_view ms hh) [] []
+    rcases hh with hh | hh
+    · exact runR_perm hp' (hv ▸ hn) (hv ▸ orderHyp_view ms hh) [] []
+    · have hl : (view ms1).length ≤ 1 := by
+        rw [← hv, view_eq_map, List.length_map]; exact hh
+      rw [perm_eq_of_length_le_one hp' hl]
 theorem seq_jperm : (xs : Jsons) → ∀ ys, OrdOKs xs → JsPerm xs ys → seq xs = seq ys
   | .nil, ys, _, hp => by simp [JsPerm] at hp; rw [hp]
   | .cons x xs, ys, ho, hp => by
@@ -242,9 +238,24 @@ theorem flat_ordOKm : (ms : Members) → flat ms = true → OrdOKm ms
     simp only [OrdOKm]
     exact ⟨flatJ_ordOK j h.1, flat_ordOKm ms h.2⟩
 
-theorem ordOK_flat (ms : Members) (hf : flat ms = true) (hd : KeysDistinct ms) : OrdOK (.obj ms) := by
+theorem ordOK_flat (ms : Members) (hf : flat ms = true) (hd : KeysDistinct ms)
+    (hk : NoEarlyKind ms ∨ ms.toList.length ≤ 1) : OrdOK (.obj ms) := by
   simp only [OrdOK]
-  exact ⟨hd, Or.inl (flat_allDecode ms hf), flat_ordOKm ms hf⟩
+  exact ⟨hd, hk, flat_ordOKm ms hf⟩
+
+/-- a `{"_kind": kind, …}` object whose kind is not an early-return kind and whose other members are not
+named `_kind` -/
+theorem noEarly_kindObj (kind : String) (rest : Members)
+    (hk : isEarly (.ok (.str (s kind))) = false) (hr : ∀ p ∈ rest.toList, p.1 ≠ s "_kind") :
+    NoEarlyKind (.cons (s "_kind") (.str (s kind)) rest) := by
+  intro p hp hpk
+  simp only [Members.toList, List.mem_cons] at hp
+  rcases hp with e | hp
+  · subst e; simpa [fromJson] using hk
+  · exact absurd hpk (hr p hp)
+
+theorem noEarly_of_noKind (ms : Members) (h : ∀ p ∈ ms.toList, p.1 ≠ s "_kind") : NoEarlyKind ms :=
+  fun p hp hk => absurd hk (h p hp)
 
 @[simp] theorem flatJ_jF64 (f : Flt) : flatJ (jF64 f) = true := by
   unfold jF64; split <;> rfl
@@ -259,18 +270,21 @@ theorem ordOK_encNumber (n : Num) : OrdOK (encNumber n) := by
       apply ordOK_flat
       · simp [flat]
       · simp [KeysDistinct, Members.toList, s]
+      · exact Or.inl (noEarly_kindObj "number" _ (by decide) (by simp [Members.toList, s]))
   · by_cases hI : isInf v = true
     · cases unit <;>
       · simp only [hN, hI]
         apply ordOK_flat
         · simp [flat]
         · simp [KeysDistinct, Members.toList, s]
+        · exact Or.inl (noEarly_kindObj "number" _ (by decide) (by simp [Members.toList, s]))
     · cases unit with
       | some u =>
         simp only [hN, hI]
         apply ordOK_flat
         · simp [flat]
         · simp [KeysDistinct, Members.toList, s]
+        · exact Or.inl (noEarly_kindObj "number" _ (by decide) (by simp [Members.toList, s]))
       | none =>
         simp only [hN, hI]
         simp
@@ -296,79 +310,80 @@ theorem allDecode_of_view (ms : Members) (l : List (List Char × Val)) (hv : vie
   obtain ⟨q, _, e⟩ := List.mem_map.mp this
   exact ⟨q.2, by simpa using (congrArg Prod.snd e).symm⟩
 
+theorem noEarly_tagsJson (t : Tags) (hw : wfTags t = true) : NoEarlyKind (tagsJson t) := by
+  apply noEarly_of_noKind
+  intro p hp e
+  have hv := rt_tags t hw
+  have : (p.1, fromJson p.2) ∈ view (tagsJson t) := by
+    rw [view_eq_map]
+    exact List.mem_map_of_mem (f := fun p => (p.1, fromJson p.2)) hp
+  rw [hv] at this
+  obtain ⟨q, hq, e2⟩ := List.mem_map.mp this
+  have : q.1 = p.1 := by simpa using congrArg Prod.fst e2
+  exact wfTags_noKind t hw q hq (this.trans e)
+
 /-- a dict object written from well-formed sorted tags -/
 theorem ordOK_obj_tags (t : Tags) (hw : wfTags t = true) (hs : strictSorted t.keys = true)
     (hm : OrdOKm (tagsJson t)) : OrdOK (.obj (tagsJson t)) := by
   simp only [OrdOK]
-  exact ⟨keysDistinct_tagsJson t hs, Or.inl (allDecode_of_view _ _ (rt_tags t hw)), hm⟩
+  exact ⟨keysDistinct_tagsJson t hs, Or.inl (noEarly_tagsJson t hw), hm⟩
 
-theorem ordOK_col (n : List Char) (jm : Json) (hd : ∃ v, fromJson jm = .ok v) (ho : OrdOK jm) :
+theorem ordOK_col (n : List Char) (jm : Json) (ho : OrdOK jm) :
     OrdOK (.obj (.cons (s "name") (.str n) (.cons (s "meta") jm .nil))) := by
   simp only [OrdOK, OrdOKm]
   refine ⟨by simp [KeysDistinct, Members.toList, s], Or.inl ?_, trivial, ho, trivial⟩
-  intro p hp
-  simp [Members.toList] at hp
-  rcases hp with e | e
-  · subst e; simp [fromJson]
-  · subst e; exact hd
+  exact noEarly_of_noKind _ (by simp [Members.toList, s])
 
-theorem ordOK_gridObj (jm jc jr : Json) (hm : ∃ v, fromJson jm = .ok v) (hc : ∃ v, fromJson jc = .ok v)
-    (hr : ∃ v, fromJson jr = .ok v) (om : OrdOK jm) (oc : OrdOK jc) (or' : OrdOK jr) :
+theorem ordOK_gridObj (jm jc jr : Json) (om : OrdOK jm) (oc : OrdOK jc) (or' : OrdOK jr) :
     OrdOK (kindObj "grid" (.cons (s "meta") jm (.cons (s "cols") jc (.cons (s "rows") jr .nil)))) := by
   simp only [kindObj, OrdOK, OrdOKm]
   refine ⟨by simp [KeysDistinct, Members.toList, s], Or.inl ?_, trivial, om, oc, or', trivial⟩
-  intro p hp
-  simp [Members.toList] at hp
-  rcases hp with e | e | e | e
-  · subst e; simp [fromJson]
-  · subst e; exact hm
-  · subst e; exact hc
-  · subst e; exact hr
+  exact noEarly_kindObj "grid" _ (by decide) (by simp [Members.toList, s])
 
 mutual
 theorem ordOK_val : (v : Val) → wfj v = true → OrdOK (toJson v)
   | .null, _ => by simp [toJson, OrdOK]
   | .remove, _ => by
     simp only [toJson, kindObj]
-    exact ordOK_flat _ (by simp [flat]) (by simp [KeysDistinct, Members.toList])
+    exact ordOK_flat _ (by simp [flat]) (by simp [KeysDistinct, Members.toList]) (Or.inr (by simp [Members.toList]))
   | .marker, _ => by
     simp only [toJson, kindObj]
-    exact ordOK_flat _ (by simp [flat]) (by simp [KeysDistinct, Members.toList])
+    exact ordOK_flat _ (by simp [flat]) (by simp [KeysDistinct, Members.toList]) (Or.inr (by simp [Members.toList]))
   | .na, _ => by
     simp only [toJson, kindObj]
-    exact ordOK_flat _ (by simp [flat]) (by simp [KeysDistinct, Members.toList])
+    exact ordOK_flat _ (by simp [flat]) (by simp [KeysDistinct, Members.toList]) (Or.inr (by simp [Members.toList]))
   | .bool _, _ => by simp [toJson, OrdOK]
   | .num n, _ => by simp only [toJson]; exact ordOK_encNumber n
   | .str _, _ => by simp [toJson, OrdOK]
   | .uri _, _ => by
     simp only [toJson, kindObj]
-    exact ordOK_flat _ (by simp [flat]) (by simp [KeysDistinct, Members.toList, s])
+    exact ordOK_flat _ (by simp [flat]) (by simp [KeysDistinct, Members.toList, s]) (Or.inl (noEarly_kindObj "uri" _ (by decide) (by simp [Members.toList, s])))
   | .ref _ dis, _ => by
     simp only [toJson, kindObj]
     cases dis <;>
-    exact ordOK_flat _ (by simp [flat]) (by simp [KeysDistinct, Members.toList, s])
+    exact ordOK_flat _ (by simp [flat]) (by simp [KeysDistinct, Members.toList, s]) (Or.inl (noEarly_kindObj "ref" _ (by decide) (by simp [Members.toList, s])))
   | .sym _, _ => by
     simp only [toJson, kindObj]
-    exact ordOK_flat _ (by simp [flat]) (by simp [KeysDistinct, Members.toList, s])
+    exact ordOK_flat _ (by simp [flat]) (by simp [KeysDistinct, Members.toList, s]) (Or.inl (noEarly_kindObj "symbol" _ (by decide) (by simp [Members.toList, s])))
   | .date _, _ => by
     simp only [toJson, kindObj]
-    exact ordOK_flat _ (by simp [flat]) (by simp [KeysDistinct, Members.toList, s])
+    exact ordOK_flat _ (by simp [flat]) (by simp [KeysDistinct, Members.toList, s]) (Or.inl (noEarly_kindObj "date" _ (by decide) (by simp [Members.toList, s])))
   | .time _, _ => by
     simp only [toJson, kindObj]
-    exact ordOK_flat _ (by simp [flat]) (by simp [KeysDistinct, Members.toList, s])
+    exact ordOK_flat _ (by simp [flat]) (by simp [KeysDistinct, Members.toList, s]) (Or.inl (noEarly_kindObj "time" _ (by decide) (by simp [Members.toList, s])))
   | .dateTime t, _ => by
     simp only [toJson, kindObj]
     by_cases h : (t.tzid == s "UTC") = true
     · simp only [h, if_true]
-      exact ordOK_flat _ (by simp [flat]) (by simp [KeysDistinct, Members.toList, s])
+      exact ordOK_flat _ (by simp [flat]) (by simp [KeysDistinct, Members.toList, s]) (Or.inl (noEarly_kindObj "dateTime" _ (by decide) (by simp [Members.toList, s])))
     · simp only [h]
-      exact ordOK_flat _ (by simp [flat]) (by simp [KeysDistinct, Members.toList, s])
+      exact ordOK_flat _ (by simp [flat]) (by simp [KeysDistinct, Members.toList, s]) (Or.inl (noEarly_kindObj "dateTime" _ (by decide) (by simp [Members.toList, s])))
   | .coord a b, _ => by
     simp only [toJson, kindObj]
-    exact ordOK_flat _ (by simp [flat]) (by simp [KeysDistinct, Members.toList, s])
+    exact ordOK_flat _ (by simp [flat]) (by simp [KeysDistinct, Members.toList, s]) (Or.inl (noEarly_kindObj "coord" _ (by decide) (by simp [Members.toList, s])))
   | .xstr _ _, _ => by
     simp only [toJson, kindObj]
-    exact ordOK_flat _ (by simp [flat]) (by simp [KeysDistinct, Members.toList, s])
+    exact ordOK_flat _ (by simp [flat]) (by simp [KeysDistinct, Members.toList, s]) (Or.inl (noEarly_kindObj "xstr" _ (by decide) (by simp [Members.toList, s])))
   | .list xs, h => by
     simp only [toJson, OrdOK]
     exact ordOK_vals xs (by simpa [wfj] using h)
@@ -380,17 +395,14 @@ theorem ordOK_val : (v : Val) → wfj v = true → OrdOK (toJson v)
     simp [wfj] at h
     simp only [toJson]
     exact ordOK_gridObj _ _ _
-      ⟨_, obj_tags t (rt_tags t h.1.1.1.1) h.1.1.1.1 h.1.1.1.2⟩
-      ⟨_, fromJson_arr _ _ (rt_cols cols h.1.2)⟩ ⟨_, fromJson_arr _ _ (rt_rows rows h.2)⟩
       (ordOK_obj_tags t h.1.1.1.1 h.1.1.1.2 (ordOK_tags t h.1.1.1.1))
       (by simp only [OrdOK]; exact ordOK_cols cols h.1.2)
       (by simp only [OrdOK]; exact ordOK_rows rows h.2)
   | .grid .none cols rows ver, h => by
     simp [wfj] at h
     simp only [toJson]
-    exact ordOK_gridObj _ _ _ ⟨_, obj_nil⟩
-      ⟨_, fromJson_arr _ _ (rt_cols cols h.1)⟩ ⟨_, fromJson_arr _ _ (rt_rows rows h.2)⟩
-      (by simp [OrdOK, OrdOKm, KeysDistinct, Members.toList, AllDecode])
+    exact ordOK_gridObj _ _ _
+      (by simp [OrdOK, OrdOKm, KeysDistinct, Members.toList, NoEarlyKind])
       (by simp only [OrdOK]; exact ordOK_cols cols h.1)
       (by simp only [OrdOK]; exact ordOK_rows rows h.2)
 theorem ordOK_vals : (vs : Vals) → wfjs vs = true → OrdOKs (listJson vs)
@@ -410,12 +422,12 @@ theorem ordOK_cols : (c : Cols) → wfCols c = true → OrdOKs (colsJson c)
   | .cons n (.some t) c, h => by
     simp [wfCols] at h
     simp only [colsJson, OrdOKs]
-    exact ⟨ordOK_col n _ ⟨_, obj_tags t (rt_tags t h.1.1) h.1.1 h.1.2⟩
-      (ordOK_obj_tags t h.1.1 h.1.2 (ordOK_tags t h.1.1)), ordOK_cols c h.2⟩
+    exact ⟨ordOK_col n _ (ordOK_obj_tags t h.1.1 h.1.2 (ordOK_tags t h.1.1)), ordOK_cols c h.2⟩
   | .cons n .none c, h => by
     simp [wfCols] at h
     simp only [colsJson, OrdOKs]
-    exact ⟨ordOK_flat _ (by simp [flat]) (by simp [KeysDistinct, Members.toList]), ordOK_cols c h⟩
+    exact ⟨ordOK_flat _ (by simp [flat]) (by simp [KeysDistinct, Members.toList]) (Or.inr (by simp [Members.toList])),
+      ordOK_cols c h⟩
 theorem ordOK_rows : (r : Rows) → wfRows r = true → OrdOKs (rowsJson r)
   | .nil, _ => by simp [rowsJson, OrdOKs]
   | .cons r rs, h => by
